@@ -81,6 +81,10 @@ def cfg_args(cfg, base):
     return ["-s", os.path.join(base, "strip.yaml")] if cfg == "strip" else []
 
 
+class ReferenceFailed(Exception):
+    """the implementation fails on one of the (valid) inputs, alone, in a fresh process: a violation, not a harness matter"""
+
+
 def reference(seedval="0", cfg="default"):
     """R[x] = {relative output path: text} for each input alone, fresh process each, reference location"""
     box = fsbox.Box("c17ref")
@@ -96,7 +100,8 @@ def reference(seedval="0", cfg="default"):
                                ["-r", "-o", out, rel], cwd=box.path("work"),
                                env=env, capture_output=True, text=True)
             if p.returncode != 0:
-                raise common.HarnessFault(f"reference run for input {x} failed: {p.stderr[-300:]}")
+                raise ReferenceFailed(f"error: the fresh single-input run for input {x} ({rel}, settings {cfg}) fails at the reference "
+                                      f"location: {p.stderr[-300:]}")
             R[x] = box.files(os.path.relpath(out, box.root))
     finally:
         box.cleanup()
@@ -309,6 +314,13 @@ def deviations(x):
 
 def run(ctx):
     quick = ctx.tier == "quick"
+    try:
+        for cfgname in ("default", "strip", "excl", "follow", "excl2"):
+            reference("0", cfgname)
+    except ReferenceFailed as e:
+        ctx.violation({"kind": "reference-run"}, [str(e).replace("\n", " ")[:600]], cls="error reference run")
+        ctx.cov["bounds"] = {"inputs": INPUTS}
+        return RULE
     R = reference()
     R2 = reference("4242")
     if R != R2:
@@ -367,6 +379,17 @@ def run(ctx):
 
 
 def replay(case):
+    try:
+        return _replay(case)
+    except ReferenceFailed as e:
+        return [str(e).replace("\n", " ")[:600]]
+
+
+def _replay(case):
+    if isinstance(case, dict) and case.get("kind") == "reference-run":
+        for cfgname in ("default", "strip", "excl", "follow", "excl2"):
+            reference("0", cfgname)
+        return []
     R = {"default": reference(), "strip": reference("0", "strip"), "excl": reference("0", "excl"),
          "follow": reference("0", "follow"), "excl2": reference("0", "excl2")}
     if isinstance(case, dict) and "rewrite" in case:
